@@ -23,6 +23,32 @@ CHECKS = {
         engine='framing'),
 }
 
+CHECKS['C16'] = dict(
+    text='StreamCodec.tla axiomatises zlib/zstandard as nondeterministic-release streaming (de)compressors over a '
+         'wire of header / data / trailer units and models the rxsci compress()/decompress() wrappers as coded '
+         '(flush on completion, eof check, named deviation AfterEof for the zstandard object). TLC checks, for every '
+         'plain chunk list, every re-chunking (empty chunks included) and every truncation point: emitted text is a '
+         'prefix of the plain text, clean completion implies equality, a truncated wire ends with an error, an '
+         'untruncated one completes. TLC behaviours are replayed on the real gzip/zstd operators, every 2-cut and '
+         'truncation point of small real streams is enumerated at byte level, random executions up to 300 kB are '
+         'recorded, and StreamCodecTrace.tla validates every execution (library axioms checked on each trace; '
+         'reference decoders gzip/zstandard judge the standalone-file clause).',
+    note='The compression libraries are assumed components (axioms validated on every trace, not proved); bounded '
+         'model (<=3 chunks, <=4 symbols); corrupted streams and data after the end marker are out of scope.',
+    design='8 (C16), 3.2, Appendix C', engine='stream-codec')
+CHECKS['C20'] = dict(
+    text='ParquetDump.tla models the dump pipeline on a plain observable as coded: batch() through scan_obs with '
+         'python list identity as a heap, create_record with its column buffer, the writer, and the loader reading '
+         'batches of m rows; constants FixBatch/FixBuffer select the defective or repaired transitions. TLC proves '
+         'RoundTrip (file rows = 1..N once each, in order) for all N<=9 (14), b<=4 (6), m<=3 (4) on the repaired '
+         'variant and collects the failing (N,b) of the others. Every (N,b,m) is replayed with real pyarrow '
+         '(none/snappy/gzip/zstd, path / BytesIO / file object, row_group_size, three schemas incl. nested), random '
+         'executions go up to N=5000, and ParquetDumpTrace.tla validates every recorded execution; the check also '
+         'determines which model variant the code follows.',
+    note='pyarrow is an assumed component (writer appends record batches, reader returns them); bounded model; '
+         'random executions keep N/b small for big batches.',
+    design='8 (C20), Appendix C', engine='parquet')
+
 MUX_NOTE = ('Bounded / sampled: TLC explores the specification side exhaustively within small constants; '
             'the real code is driven on harness-enumerated small inputs and on random cases of the '
             'property\'s operator family, every recorded execution is judged by TLC. Trusts: the taps '
@@ -80,6 +106,10 @@ for _i, _t in MUX.items():
 ENGINES = [
     dict(name='framing', path='spec/LineFraming.tla spec/LengthPrefix.tla spec/*Trace.tla harness/checks/c15.py',
          serves_properties=['C15'], kind_free_text='TLA+ transducer spec + TLC + trace validation'),
+    dict(name='stream-codec', path='spec/StreamCodec.tla spec/StreamCodecTrace.tla harness/checks/c16.py',
+         serves_properties=['C16'], kind_free_text='TLA+ transducer spec with axiomatised library + TLC + trace validation'),
+    dict(name='parquet', path='spec/ParquetDump.tla spec/ParquetDumpTrace.tla harness/checks/c20.py',
+         serves_properties=['C20'], kind_free_text='TLA+ implementation model (heap of python lists) + TLC + trace validation'),
     dict(name='mux-contracts', path='spec/FnLib.tla spec/ListSem.tla spec/ListSemCheck.tla spec/Contracts.tla '
                                     'spec/MuxTrace.tla harness/mux.py harness/muxgen.py harness/muxcheck.py '
                                     'harness/checks/muxprops.py',
